@@ -222,3 +222,17 @@ def c05(seed, tier, broken):
 
     w, ev, stats = O.search_convergence(seed, _n(tier, broken, 60, 3000))
     return dict(found=[w] if w else [], evaluations=ev, calibrated_bounds=O.CAL, **stats)
+
+
+def c07(seed, tier, broken):
+    from search import metamorphic as M
+
+    w, ev, worst = M.search_frame(seed, _n(tier, broken, 40, 2000))
+    return dict(found=[w] if w else [], evaluations=ev, worst_deviation_over_tolerance=worst)
+
+
+def c08(seed, tier, broken):
+    from search import metamorphic as M
+
+    found, ev, counts = M.search_representation(seed, _n(tier, broken, 120, 5000))
+    return dict(found=found, evaluations=ev, variants=counts)
